@@ -96,7 +96,7 @@ def sysChunk (st : SysSt) (n : Nat) : SysSt × String :=
     let amount := Float.ofNat (i + 1) / Float.ofNat n
     let vol := Parameter.interpolatedValue tw32 mainVol' amount
     let x := KOps.r32 (level * asAmplitude vol)
-    clamp x (-1.0) 1.0)
+    clamp (nanToZero x) (-1.0) 1.0)
   let frag := s!" / n={n} d={show64 st.dtFrame} u=[{String.intercalate ";" us}] m={seenStr m} p=[{String.intercalate "," (sounds'.map (fun (p : Parameter Float Float) => show64 p.value))}] o={String.intercalate "," (samples.map show32)}"
   ({ st with store := cs'.mods, mainVol := mainVol', s0 := s0', sounds := sounds' }, frag)
 
